@@ -2,7 +2,7 @@ package c12
 
 // Independent interpreter of a PDF page's content stream, written from ISO 32000-1: §8.2 graphics
 // objects, §8.4 graphics state, §8.5 path construction and painting, §8.6 colour spaces,
-// §8.7.4 shading patterns (axial), §7.10 functions (types 2 and 3), §11.3.7 constant alpha.
+// §8.7.4 shading patterns (axial and radial), §7.10 functions (types 2 and 3), §11.3.7 constant alpha.
 // File structure, page tree, resources and content tokenisation come from internal/pdfread.
 // The result is a display list in canvas millimetres (default user space unit = 1/72 inch).
 
@@ -190,7 +190,7 @@ func (in *pdfInterp) resolvePaint(c pdfColour, alpha float64) (paint, bool) {
 			return paint{}, false
 		}
 		st, _ := pdfread.Num(in.doc.Resolve(sh["ShadingType"]))
-		if int(st) != 2 {
+		if int(st) != 2 && int(st) != 3 {
 			in.dl.problem("pdf-interpreter-limit", "shading type %v is not interpreted", st)
 			return paint{}, false
 		}
@@ -209,8 +209,12 @@ func (in *pdfInterp) resolvePaint(c pdfColour, alpha float64) (paint, bool) {
 			return out
 		}
 		co := num(sh["Coords"])
-		if len(co) != 4 {
+		if int(st) == 2 && len(co) != 4 {
 			in.dl.problem("pdf-bad-shading", "axial shading /Coords has %d numbers", len(co))
+			return paint{}, false
+		}
+		if int(st) == 3 && (len(co) != 6 || co[2] < 0 || co[5] < 0) {
+			in.dl.problem("pdf-bad-shading", "radial shading /Coords is %v (six numbers with non-negative radii)", co)
 			return paint{}, false
 		}
 		dom := []float64{0, 1}
@@ -240,6 +244,11 @@ func (in *pdfInterp) resolvePaint(c pdfColour, alpha float64) (paint, bool) {
 		}
 		g := &gradient{toGrad: inv, p0: oracle.Pt{X: co[0], Y: co[1]}, p1: oracle.Pt{X: co[2], Y: co[3]}, extend: ext, alpha: alpha,
 			desc: fmt.Sprintf("/%s axial (%.4g,%.4g)->(%.4g,%.4g) pt", c.pattern, co[0], co[1], co[2], co[3])}
+		if int(st) == 3 {
+			// 8.7.4.5.4: circles (x0,y0,r0) at t=0 and (x1,y1,r1) at t=1
+			g = &gradient{toGrad: inv, radial: true, p0: oracle.Pt{X: co[0], Y: co[1]}, r0: co[2], p1: oracle.Pt{X: co[3], Y: co[4]}, r1: co[5], extend: ext, alpha: alpha,
+				desc: fmt.Sprintf("/%s radial (%.4g,%.4g) r=%.4g -> (%.4g,%.4g) r=%.4g pt", c.pattern, co[0], co[1], co[2], co[3], co[4], co[5])}
+		}
 		g.colourAt = func(t float64) colour {
 			v, err := in.pdfFunction(fn, dom[0]+t*(dom[1]-dom[0]))
 			if err != nil || len(v) < 3 {
